@@ -382,9 +382,16 @@ def apply_fault(sess, a):
             t[t.columns[salt % len(t.columns)]] = t[t.columns[salt % len(t.columns)]].astype(object)
             t.loc[t.index[salt % len(t)], t.columns[salt % len(t.columns)]] = 'abc'
             fn = lambda: run(base, data=db.Database('bad', t))
-        else:
+        elif salt % 2:
             fn = lambda: run(base, data=db.Database('bad', t.iloc[0:0]))
-        ok, engine, e = expect_error(sess, f'{kind} table', fn)
+        else:
+            # a valid table, emptied afterwards by removing every observation
+            def fn():
+                d_ = db.Database('emptied', t)
+                d_.remove(ex.Variable('c0') > -100)
+                return run(base, data=d_)
+            kind = 'empty_data (table emptied by remove())'
+        ok, engine, e = expect_error(sess, f'{kind} table, via {entry}', fn)
     elif kind == 'panel_outside':
         t = sess.tables[dbi].copy().sort_values('ch', kind='stable').reset_index(drop=True)
         d = db.Database('pan', t)
@@ -451,6 +458,26 @@ def apply_fault(sess, a):
             lp = _nested_entry(salt, utils, nests, ex.Variable('ch'))
             return lp.get_value_c(database=sess.dbs[dbi], aggregation=True, prepare_ids=True)
         ok, engine, e = expect_error(sess, f'{kind}', f)
+    elif kind == 'catalog_entry_fault':
+        # a catalog with a valid entry (selected when the object is built) and a faulty one (a column that is not in the
+        # data, as such or inside a condition): estimate_catalog() reaches the faulty entry, which must be refused like the
+        # same formula handed over directly
+        from biogeme.catalog import Catalog
+        from biogeme.configuration import Configuration
+        from ..fs import REAL_OPEN
+        import os as _os
+        if not _os.path.exists('biogeme.toml'):
+            with REAL_OPEN('biogeme.toml', 'w', encoding='utf-8') as f_:
+                f_.write('')        # estimate_catalog builds objects that read the default parameter file: empty = defaults
+        cb_ = ex.Beta('ce_beta', 0.1, None, None, 0)
+        bad_ = (cb_ * ex.Variable('not_in_the_data')) if salt % 2 else (cb_ * ex.Variable('c0') * (ex.Variable('also_absent') > 0))
+        cat_ = Catalog.from_dict('ce_spec', {'linear': cb_ * ex.Variable('c0'), 'faulty': bad_})
+        dev_ = cat_ - ex.Variable('c1')
+        B_ = bio.BIOGEME(sess.dbs[dbi], -(dev_ * dev_) - 0.1 * cb_ * cb_, parameters=params())
+        B_.modelName = 'ce_model'
+        ok, engine, e = expect_error(
+            sess, 'catalog entry referring to an absent column, reached through estimate_catalog()',
+            lambda: B_.estimate_catalog(selected_configurations={Configuration.from_string('ce_spec:faulty')}))
     elif kind == 'cnl_outside':
         # cross-nested logit: an alternative that is not in the choice set appears in ONE of three nests (any position)
         from biogeme.nests import OneNestForCrossNestedLogit, NestsForCrossNestedLogit
